@@ -174,6 +174,11 @@ def check_load(res: Result, props: Set[str], si: int, op: Dict[str, Any], r: Dic
         e = exp[rank]
         rows = obs["ranks"][str(rank)]
         seen: Set[int] = set()
+        # C02 speaks about every *loaded* event: links are judged among the rows that are really
+        # present (which rows should be present is C12's question)
+        present_ids = {row.get("index") for row in rows if isinstance(row.get("index"), int)
+                       and row.get("index") in rfs[rank].rows}
+        links_present = refmodel.ref_links(rfs[rank].rows, present_ids)
         for row in rows:
             eid = row.get("index")
             if not isinstance(eid, int) or eid in seen:
@@ -217,8 +222,8 @@ def check_load(res: Result, props: Set[str], si: int, op: Dict[str, Any], r: Dic
                 if Fraction(row["ts"]) < o_ts or (Fraction(row["ts"]) + Fraction(row["dur"] or 0)) > o_end:
                     res.violate("C01", f"rounded-outward/{ref_mode}", {"rank": rank, "id": eid}, si, r["i"])
             # --- C02: links
-            if e["present"] is not None and eid in e["rows"]:
-                want_link = e["rows"][eid]["link"]
+            if True:
+                want_link = links_present.get(eid)
                 if want_link is not None:
                     got = row.get("index_correlation")
                     if got != want_link:
@@ -230,6 +235,7 @@ def check_load(res: Result, props: Set[str], si: int, op: Dict[str, Any], r: Dic
                         res.probe("linked_rows")
                     elif want_link == 0:
                         res.probe("link_partner_absent")
+            if e["present"] is not None and eid in e["rows"]:
                 # --- C12: iteration values
                 want_it = e["rows"][eid]["iteration"]
                 if want_it is not None and row.get("iteration") != want_it:
